@@ -4,6 +4,7 @@ from common import *
 import chan_l
 import chan_v
 import chan_x
+import chan_p
 
 L_PROPS = {"C01", "C02", "C03", "C12", "C13", "C18", "C19", "C20"}
 
@@ -67,6 +68,8 @@ def decide(prop, tier, seed, replay=None):
             return decide_V(prop, tier, seed, t0, replay)
         if prop in X_PROPS:
             return decide_X(prop, tier, seed, t0, replay)
+        if prop in P_PROPS:
+            return decide_P(prop, tier, seed, t0, replay)
     print(f"unknown property {prop}")
     return 2
 
@@ -90,6 +93,99 @@ def determinism_L(seed):
         res["detail"] = f"{a[k][:200]} vs {b[k][:200]}"
         res["requests"] = req[start:end]
     return res
+
+
+P_PROPS = {"C11", "C14"}
+
+
+def decide_P(prop, tier, seed, t0, replay):
+    pr = proof_side(prop, tier)
+    ok, out = cargo_build(["chan_l", "chan_p"])
+    if not ok:
+        path = write_replay(prop, "build", "harness does not build against /repo:\n" + out[-3000:])
+        print(f"VIOLATION property={prop} replay={path} no-failing-input-found")
+        return 1
+    lake_build(["trucdrv"])
+    # the generator model (assertions, struct shapes) is tied by the G part of channel L
+    linfo = chan_l.run(seed, tier)
+    lan = chan_l.analyse(linfo["dirs"], prop)
+    pinfo = chan_p.run(seed, tier)
+    probes = pinfo["probes"]
+    oracle = []; disagree = []
+    for pb in probes:
+        if prop == "C11" and not pb["kind"].startswith("auto"):
+            must_compile = pb["kind"] == "ok"
+            if pb["compiles"] != must_compile:
+                oracle.append({"message": f"{pb['desc']}: the generated module {'compiles' if pb['compiles'] else 'is rejected: ' + str(pb['error'])}", "requests": pb["requests"]})
+            if (pb["model"] == "accept") != pb["compiles"]:
+                disagree.append({"request": "static", "impl": "compiles" if pb["compiles"] else "rejected", "model": pb["model"], "requests": pb["requests"], "desc": pb["desc"]})
+        if prop == "C14" and pb["kind"].startswith("auto"):
+            what = pb["kind"].split("-")[1]
+            must_compile = "NOT" not in pb["desc"]
+            if pb["compiles"] != must_compile:
+                oracle.append({"message": f"auto-trait: {pb['desc']}: the probe `is_{what}::<Record0>()` {'compiles' if pb['compiles'] else 'is rejected'}", "requests": pb["requests"]})
+            model_says = ("send=true" in pb["model"]) if what == "send" else ("sync=true" in pb["model"])
+            if model_says != pb["compiles"]:
+                disagree.append({"request": "autotraits", "impl": "compiles" if pb["compiles"] else "rejected", "model": pb["model"], "requests": pb["requests"], "desc": pb["desc"]})
+    proof_ok = not pr["problems"]
+    tie_ok = lan.get("n_disagree", 0) == 0 and not linfo["errors"] and not disagree and not pinfo["errors"]
+    rc = 0; violations = 0; lines = []
+    unknown = [o for o in oracle if not known_match(prop, o["message"])]
+    known = [o for o in oracle if known_match(prop, o["message"])]
+    seen_known = set()
+    for o in known:
+        k = known_match(prop, o["message"])
+        if k["what"] not in seen_known:
+            seen_known.add(k["what"])
+            lines.append(f"KNOWN-FINDING: property={prop} {k['what']}")
+    if unknown:
+        o = unknown[0]
+        body = (f"# kind: implementation-vs-oracle (compile probe)\n# {o['message']}\n# {len(unknown)} probes fail; the requests below build the definition whose generated module was compiled\n" + "\n".join(o["requests"]) + "\n")
+        path = write_replay(prop, "oracle", body)
+        lines.append(f"VIOLATION property={prop} replay={path}")
+        violations = len(unknown); rc = 1
+    elif not proof_ok or not tie_ok:
+        what = []
+        if not proof_ok:
+            what.append("proof obligations that no longer check: " + " | ".join(pr["problems"])[:2000])
+        body = "# kind: model-vs-implementation / proof break, no failing input found\n"
+        hist = []
+        if lan.get("n_disagree", 0):
+            d = lan["disagreements"][0]
+            what.append(f"channel L/G: {lan['n_disagree']} histories disagree; first at `{d['request']}`")
+            la, lb = d["impl"].split("\t"), d["model"].split("\t")
+            k = next((i for i in range(min(len(la), len(lb))) if la[i] != lb[i]), min(len(la), len(lb)))
+            what.append(f"IR line {k}: impl `{(la[k] if k < len(la) else '<end>')[:200]}` model `{(lb[k] if k < len(lb) else '<end>')[:200]}`")
+            hist = d["requests"]
+        if disagree:
+            d = disagree[0]
+            what.append(f"compile probes: the static model says {d['model']} but the module {d['impl']} ({d['desc']}); {len(disagree)} probes disagree")
+            hist = hist or d["requests"]
+        if pinfo["errors"] or linfo["errors"]:
+            what.append(f"errors: {(pinfo['errors'] + linfo['errors'])[:2]}")
+        body += "# " + "\n# ".join(what) + "\n" + "\n".join(hist) + "\n"
+        path = write_replay(prop, "tie", body)
+        lines.append(f"VIOLATION property={prop} replay={path} no-failing-input-found")
+        violations = 1; rc = 1
+    mine = [pb for pb in probes if (pb["kind"].startswith("auto")) == (prop == "C14")]
+    cov = {
+        "obligations": pr["obligations"], "discharged": pr["discharged"],
+        "checker_cmd": f"cd lean/TrucModel && lake build TrucModel.Props.{prop} && lake env lean <#print axioms of each theorem>",
+        "trusted_base": TRUSTED + ["rustc (const-assertion evaluation, Copy obligations, auto-trait derivation are modelled; validated by the compile probes)"],
+        "theorems": pr["theorems"], "axioms": pr["axioms"], "proof_problems": pr["problems"],
+        "evaluations": len(mine) + lan["histories"], "distinct_nontrivial": len({pb["desc"] for pb in mine if pb["kind"] != "ok"}),
+        "rule": "compile probes = one generated module per (lab type x first/later variant x perturbation of size/alignment/uninit flag, or non-Send/non-Sync field), compiled with rustc against truc_runtime; only compiles/rejected is observed and compared with the static model; non-trivial = perturbed probes; plus the generator correspondence of channel L (IR of generate() vs Lean Gen)",
+        "samples": [{"probe": pb["desc"], "compiles": pb["compiles"], "model": pb["model"]} for pb in mine[:4]],
+        "probes": len(mine), "probe_outcomes": {k: sum(1 for pb in mine if pb["kind"] == k and pb["compiles"]) for k in sorted({pb["kind"] for pb in mine})},
+        "generator_histories": lan["histories"], "disagreements": lan.get("n_disagree", 0) + len(disagree), "oracle_hits": len(oracle),
+        "known_findings_reported": sorted(seen_known), "exhaustive": False,
+    }
+    write_evidence(prop, tier, seed, cov, ["rustc's checking of the modelled rules"], time.time() - t0, violations)
+    for l in lines:
+        print(l)
+    if rc == 0:
+        print(f"OK property={prop} theorems={pr['discharged']}/{pr['obligations']} probes={len(mine)}")
+    return rc
 
 
 X_PROPS = {"C04", "C05", "C06", "C07", "C15", "C16"}
